@@ -1,5 +1,6 @@
 import IsoVerif.Driver.Core
 import IsoVerif.Model.Interval
+import IsoVerif.Model.Profiles
 
 namespace IsoVerif.Driver.C19
 open Lean IsoVerif.Driver IsoVerif.Gen IsoVerif.Model
@@ -64,7 +65,40 @@ def ops : List (String × Handler) := [
   ("interval_bin_search", fun j => do
       pure (ofOptInt (intervalBinSearch (← jIvList (← arg j "l")) (← jInt (← arg j "p"))))),
   ("interval_bin_search_rev", fun j => do
-      pure (ofOptInt (intervalBinSearchRev (← jIvList (← arg j "l")) (← jInt (← arg j "p")))))
+      pure (ofOptInt (intervalBinSearchRev (← jIvList (← arg j "l")) (← jInt (← arg j "p"))))),
+  ("split_exons", fun j => do pure (ofOptIvList (splitExons (← jIvList (← arg j "l"))))),
+  ("isoform_profile", fun j => do
+      let feats ← jIvList (← arg j "features")
+      let tf ← jIvList (← arg j "tf")
+      let region ← jIv (← arg j "region")
+      let c ← jStr (← arg j "cmp")
+      let cmpf : Iv → Iv → Bool := if c == "equal" then (fun a b => equal_ranges a b 0) else (fun a b => contains a b)
+      let r := setProfiles feats tf region cmpf
+      pure (Json.mkObj [("profile", ofIntList r.1), ("range", ofIv r.2)])),
+  ("overlapping_profile", fun j => do
+      let kind ← jStr (← arg j "kind")
+      let known ← jIvList (← arg j "known")
+      let gr ← jIv (← arg j "gene_region")
+      let read ← jIvList (← arg j "read")
+      let mapped ← jIv (← arg j "mapped")
+      let polya ← jInt (← arg j "polya")
+      let polyt ← jInt (← arg j "polyt")
+      let d ← jInt (← arg j "d")
+      let ad ← jInt (← arg j "abs_d")
+      let cmpf : Iv → Iv → Bool := fun a b => equal_ranges a b d
+      let absf : Iv → Iv → Bool := if kind == "intron" then (fun a b => overlaps_at_least a b ad) else (fun a b => contains a b)
+      let r := constructOverlapping known gr cmpf absf d read mapped polya polyt
+      pure (Json.mkObj [("gene", ofIntList r.gene), ("read", ofIntList r.read), ("range", ofIv r.range)])),
+  ("nonoverlapping_profile", fun j => do
+      let known ← jIvList (← arg j "known")
+      let read ← jIvList (← arg j "read")
+      let polya ← jInt (← arg j "polya")
+      let polyt ← jInt (← arg j "polyt")
+      let d ← jInt (← arg j "d")
+      let mo ← jInt (← arg j "min_ov")
+      match constructNonOverlapping known (fun a b => overlaps_at_least_when_overlap a b mo) d read polya polyt with
+      | none => pure (jErr "error")
+      | some r => pure (Json.mkObj [("gene", ofIntList r.gene), ("read", ofIntList r.read), ("range", ofIv r.range)]))
 ]
 
 end IsoVerif.Driver.C19
